@@ -102,8 +102,8 @@ var encPools = map[string][]string{
 	"C0":       {"\a", "\v", "\x00", "\x01", "\x1f", "\x0e"},
 	"ESC":      {"\x1b", "\x1b[2J", "\x1b]0;t\x1b\\", "\x1b[38;5;201m"},
 	"DEL":      {"\x7f"},
-	"nonascii": {"é", "中", "Ж", "ü"},
-	"npbmp":    {"\u200b", "\u0085", "\ufeff", "\u00ad"},
+	"nonascii": {"é", "中", "Ж", "ü", "\ufffd", "a\ufffdb"}, // incl. a well-formed U+FFFD (not an invalid byte!)
+	"npbmp":    {"\u200b", "\u0085", "\ufeff", "\u00ad", "\u00a0"},
 	"lsep":     {"\u2028", "\u2029"},
 	"astral":   {"😀", "𝒜"},
 	"astralnp": {"\U000e0001", "\U0001d173", "\U0010ffff"},
